@@ -2,8 +2,10 @@
 """translator/extract.py — re-reads /repo's sources and regenerates coq/Extracted.v.
 
 A deliberately small pattern extractor (not a Rust front end).  Every fact is a Coq Definition of a
-finite datum.  If a pattern is not found the fact is emitted as an *undefined name* reference so that
-the dependent theorem fails to compile (never a silent default)."""
+finite datum and belongs to one property.  If a pattern is not found the fact keeps the value the
+proofs were written for, and `facts_found_<property>` becomes `false`: the theorem
+`<property>_facts_extracted : facts_found_<property> = true` of that property (and only of that
+property) then fails to check — never a silent default, and no alarm in the neighbours."""
 import re, sys, os, hashlib
 
 REPO = sys.argv[1] if len(sys.argv) > 1 else "/repo"
@@ -14,6 +16,19 @@ def src(rel):
         return f.read()
 
 facts = []      # (name, type, value-or-None, comment)
+
+# owner property and the value the proofs were written for
+OWNER = {
+    "cache_threshold": ("C04", "3%nat"),
+    "abbrev_len": ("C19", "25"), "abbrev_lo": ("C19", "21"), "abbrev_hi": ("C19", "25"),
+    "serde_token_text_ty": ("C16", "FCowStr"),
+    "node_send_bounds": ("C08", "[MSend; MSync]"), "node_sync_bounds": ("C08", "[MSend; MSync]"),
+    "ctor_resolver_bounds": ("C08", "[[MSend; MSync]; [MSend; MSync]]"),
+    "green_token_unconditional": ("C08", "true"),
+    "rc_orderings": ("C07", "[OAcqRel; OAcqRel; OAcqRel; OAcqRel]"),
+    "rc_exclusive_refs": ("C07", "0%nat"),
+    "slot_exclusive_refs_outside_teardown": ("C07", "0%nat"),
+}
 
 def fact(name, ty, val, comment):
     facts.append((name, ty, val, comment))
@@ -81,18 +96,43 @@ def main():
                              re.search(r"unsafe\s+impl\s+Sync\s+for\s+GreenToken\s*\{\s*\}", green_tok)) else "false",
                   "green/token.rs: `unsafe impl Send/Sync for GreenToken {}` without conditions"))
 
+    # ---- C07: how the shared counter and the child slots are touched
+    order_map = {"Relaxed": "ORelaxed", "Acquire": "OAcquire", "Release": "ORelease", "AcqRel": "OAcqRel", "SeqCst": "OSeqCst"}
+    ords = re.findall(r"\.fetch_(?:add|sub)\(\s*\d+\s*,\s*Ordering::(\w+)\s*\)", node)
+    facts.append(("rc_orderings", "list ordering_name",
+                  ("[" + "; ".join(order_map[o] for o in ords) + "]") if ords and all(o in order_map for o in ords) else None,
+                  "syntax/node.rs: memory ordering of every fetch_add / fetch_sub on the tree's reference count, in source order"))
+    facts.append(("rc_exclusive_refs", "nat", "%d%%nat" % len(re.findall(r"&mut\s*\*\s*[\w.()]*ref_count", node)),
+                  "syntax/node.rs: number of places that form `&mut` to the shared reference count"))
+    # `&mut *` over a child slot is only sound where no other thread can hold a reference into the slot: the teardown
+    body_wo_teardown = re.sub(r"fn\s+drop_recursive\b.*?\n    \}\n", "", node, flags=re.S)
+    facts.append(("slot_exclusive_refs_outside_teardown", "nat",
+                  "%d%%nat" % len(re.findall(r"&mut\s*\*\s*[\w.()]*children\s*\.get_unchecked\([^)]*\)\s*\.get\(\)", body_wo_teardown)),
+                  "syntax/node.rs: number of places outside drop_recursive that form `&mut` to the content of a child slot"))
+
     out = ["(* Extracted.v — GENERATED by translator/extract.py from /repo on every run. Do not edit. *)",
            "From Coq Require Import List NArith.", "Import ListNotations.", "Open Scope N_scope.", "",
            "(* how the text field of the serialized token event is typed *)",
            "Inductive field_ty := FBorrowedStr | FCowStr.", "",
            "(* auto-trait markers a bound can mention *)",
-           "Inductive marker := MSend | MSync.", ""]
+           "Inductive marker := MSend | MSync.", "",
+           "(* memory orderings as written in the source *)",
+           "Inductive ordering_name := ORelaxed | OAcquire | ORelease | OAcqRel | OSeqCst.", ""]
+    missing = {}
     for name, ty, val, comment in facts:
+        owner, default = OWNER[name]
+        missing.setdefault(owner, [])
         out.append("(* %s *)" % comment)
         if val is None:
-            out.append("Definition %s : %s := translator_could_not_find_%s." % (name, ty, name))
+            missing[owner].append(name)
+            out.append("(* NOT FOUND in the current source: the value the proofs were written for is kept, and facts_found_%s is false *)" % owner)
+            out.append("Definition %s : %s := %s." % (name, ty, default))
         else:
             out.append("Definition %s : %s := %s." % (name, ty, val))
+        out.append("")
+    for owner in sorted(missing):
+        out.append("(* were all facts of %s found?%s *)" % (owner, (" missing: " + ", ".join(missing[owner])) if missing[owner] else ""))
+        out.append("Definition facts_found_%s : bool := %s." % (owner, "false" if missing[owner] else "true"))
         out.append("")
     text = "\n".join(out)
     old = None
